@@ -73,7 +73,7 @@ CLAIMS = {
         "legacy trio, 5(r+1) for Minecraft auto-detection over its five sockets; 1 for Savage 2 — by a counting logic over the transport log (Block); "
         "against a silent server each query fails with the receive-class error (auto-detection: AutoQuery) after exactly the stated number of sends, "
         "timeouts and sockets (C12_<family>_silent_server; bounds attained); a received datagram is delivered unmodified up to the requested size and a "
-        "stream whole; sent bytes are handed over unmodified; default timeouts are finite. MEASURED on real loopback sockets (IPv4 and IPv6), not "
+        "stream whole; sent bytes are handed over unmodified; default timeouts are finite. MEASURED on real loopback sockets (IPv4, IPv6 and the IPv4 peer under its IPv4-mapped IPv6 address), not "
         "proved: that the OS honours the timeouts — wall clock of Valve and GameSpy 2 queries against servers that fall silent at every point of the "
         "exchange, of the Minecraft Java query against a TCP peer that never writes, and of a TCP read against a peer that writes part of a reply and "
         "then stalls with the connection open, of the Eco query through the HTTP client against a peer that is mute / stalls in the head / in the body / "
@@ -266,7 +266,8 @@ CLAIMS = {
   category="proof",
   text=("Lean 4 theorems over a model of buffer.rs and the Minecraft VarInt/string codecs: no operation history crashes or "
         "leaves the packet; fixed-width reads, cursor moves, terminated/unterminated string reads characterised exactly; "
-        "VarInt decode∘encode = id for all 2^32 values, injective, over-long rejected, at most five bytes; string round trip "
+        "the Unreal 2 string decoder as a reader operation (C17_unreal2_string_*: never a crash, position within the packet, advance = exactly the "
+        "announced bytes, a failed read leaves the position); VarInt decode∘encode = id for all 2^32 values, injective, over-long rejected, at most five bytes; string round trip "
         "for all valid UTF-8. The model is tied to the code on every run by executing the same operation sequences on both "
         "(position and remaining length compared after every operation) and a reference oracle written from the property "
         "statement is evaluated on the implementation's outputs."),
